@@ -2,7 +2,7 @@
 from . import core, impl
 from .gen import Gen, Opts, module_text, ty_sx, val_sx, canon_py, features
 
-MODELLED = ('uper', 'oer', 'per')
+MODELLED = ('uper', 'oer', 'per', 'der', 'ber')
 RT_CODECS = ('uper', 'oer')   # codecs with a round-trip theorem whose hypotheses the driver evaluates (`rt`)
 
 
